@@ -191,7 +191,7 @@ theorem Frame.connected {c c' : C} (h : Frame c c') : c'.connected = c.connected
   unfold Frame at h
   rw [h]
 
-theorem Frame.ping {c c' : C} (h : Frame c c') : c'.ping = c.ping := by
+theorem Frame.pings {c c' : C} (h : Frame c c') : c'.pings = c.pings := by
   unfold Frame at h
   rw [h]
 
@@ -287,11 +287,7 @@ theorem peer_conservation (k : Kind) (c : C) (p : Packet) :
       ((c.unsuback.ack tUNSUBACK id).acked.2)
     cases k <;> simp only [peer, peerReleased, ackedQueue, List.nil_append, (hf _).queue] <;> simp only [queue]
     rw [acked_conservation, ack_map_key]
-  | pingresp =>
-    simp only [peer]
-    cases c.ping with
-    | none => cases k <;> simp [peerReleased, ackedQueue]
-    | some x => cases k <;> simp [peerReleased, ackedQueue, queue]
+  | pingresp => cases k <;> simp [peer, peerReleased, ackedQueue, queue]
   | connack sp code => cases k <;> simp [peer, peerReleased, ackedQueue]
   | subscribe id ts => cases k <;> simp [peer, peerReleased, ackedQueue]
   | unsubscribe id ts => cases k <;> simp [peer, peerReleased, ackedQueue]
@@ -328,9 +324,6 @@ theorem peer_connected (c : C) (p : Packet) : (peer c p).1.connected = c.connect
   | unsuback id =>
     simp only [peer]
     rw [(foldDone_frame unsubscribeDone unsubscribeDone_frame _ _).connected]
-  | pingresp =>
-    simp only [peer]
-    cases c.ping <;> rfl
   | _ => rfl
 
 theorem apiRegister_connected (c : C) (call : Api) : (apiRegister c call).1.connected = c.connected := by
@@ -664,9 +657,7 @@ theorem peer_queue_other (k : Kind) (c : C) (p : Packet) (h : termId k p = none)
     simp only [peer]
     rw [(foldDone_frame unsubscribeDone unsubscribeDone_frame _ _).queue]
     cases k <;> simp [termId] at h <;> rfl
-  | pingresp =>
-    simp only [peer]
-    cases c.ping <;> cases k <;> rfl
+  | pingresp => cases k <;> rfl
   | puback id => cases k <;> simp [termId] at h <;> rfl
   | pubcomp id => cases k <;> simp [termId] at h <;> rfl
   | pubrel id => cases k <;> rfl
@@ -901,23 +892,10 @@ theorem step_terminal_origin (k : Kind) (c : C) (ev : Ev) (r : Req) (hr : r ∈ 
       | _ => exact hr
     | _ => simpa [step, hc'] using hr
 
-/-! ### the ping slot -/
+/-! ### the ping FIFO -/
 
-/-- tag of the ping request held in the single slot -/
-def slotTags (c : C) : List Nat :=
-  match c.ping with
-  | some (_, t) => [t]
-  | none => []
-
-/-- a `Ping` call is made only when no earlier ping is outstanding -/
-def pingOkStep (c : C) : Ev → Bool
-  | .api (.ping _) => c.ping.isNone
-  | .apiEarlyAck (.ping _) _ => c.ping.isNone
-  | _ => true
-
-def PingOk (c : C) : List Ev → Bool
-  | [] => true
-  | ev :: evs => pingOkStep c ev && PingOk (step c ev).1 evs
+/-- tags of the ping requests in flight, oldest first -/
+def pingTags (c : C) : List Nat := c.pings.map (·.2)
 
 def pingFiredStep (c : C) : Ev → List Nat
   | .peer .pingresp => doneTags (step c (.peer .pingresp)).2
@@ -932,7 +910,27 @@ def pingRequested : List Ev → List Nat
   | .api (.ping tag) :: evs => tag :: pingRequested evs
   | _ :: evs => pingRequested evs
 
-theorem peer_ping (c : C) (p : Packet) (h : p ≠ .pingresp) : (peer c p).1.ping = c.ping := by
+theorem pingAck_tags (l : List (Nat × Nat)) : (pingAck l).map (·.2) = l.map (·.2) := by
+  induction l with
+  | nil => rfl
+  | cons e l ih =>
+    simp only [pingAck]
+    split
+    · rfl
+    · simp only [List.map_cons, ih]
+
+theorem pingAcked_conservation (l : List (Nat × Nat)) : (pingAcked l).2 ++ (pingAcked l).1 = l := by
+  simp [pingAcked, List.takeWhile_append_dropWhile]
+
+theorem flatMap_completeOut_doneTags_pairs (rs : List (Nat × Nat)) :
+    doneTags (rs.flatMap (fun e => completeOut e.2 false)) = nz (rs.map (·.2)) := by
+  induction rs with
+  | nil => rfl
+  | cons r rs ih =>
+    simp only [List.flatMap_cons, doneTags_append, doneTags_completeOut, ih, List.map_cons]
+    exact (nz_cons _ _).symm
+
+theorem peer_pings (c : C) (p : Packet) (h : p ≠ .pingresp) : (peer c p).1.pings = c.pings := by
   cases p with
   | publish pub =>
     simp only [peer]
@@ -941,14 +939,18 @@ theorem peer_ping (c : C) (p : Packet) (h : p ≠ .pingresp) : (peer c p).1.ping
     · by_cases h1 : pub.qos = 1 <;> simp [h2, h1]
   | suback id codes =>
     simp only [peer]
-    rw [(foldDone_frame subscribeDone subscribeDone_frame _ _).ping]
+    rw [(foldDone_frame subscribeDone subscribeDone_frame _ _).pings]
   | unsuback id =>
     simp only [peer]
-    rw [(foldDone_frame unsubscribeDone unsubscribeDone_frame _ _).ping]
+    rw [(foldDone_frame unsubscribeDone unsubscribeDone_frame _ _).pings]
   | pingresp => exact absurd rfl h
   | _ => rfl
 
-theorem apiWrite_ping (c : C) (call : Api) : (apiWrite c call).1.ping = c.ping := by
+theorem peer_pingresp (c : C) :
+    peer c .pingresp = ({ c with pings := (pingAcked (pingAck c.pings)).1 },
+      (pingAcked (pingAck c.pings)).2.flatMap (fun e => completeOut e.2 false)) := rfl
+
+theorem apiWrite_pings (c : C) (call : Api) : (apiWrite c call).1.pings = c.pings := by
   cases call with
   | publish p tag =>
     simp only [apiWrite, assignId]
@@ -963,7 +965,7 @@ theorem apiWrite_ping (c : C) (call : Api) : (apiWrite c call).1.ping = c.ping :
     by_cases hi : (id == 0) = true <;> simp [hi]
   | ping tag => rfl
 
-theorem apiRegister_ping (c : C) (call : Api) (h : ∀ tag, call ≠ .ping tag) : (apiRegister c call).1.ping = c.ping := by
+theorem apiRegister_pings (c : C) (call : Api) (h : ∀ tag, call ≠ .ping tag) : (apiRegister c call).1.pings = c.pings := by
   cases call with
   | publish p tag =>
     simp only [apiRegister]
@@ -982,45 +984,47 @@ theorem apiWrite_snd_ping (c : C) (call : Api) (h : ∀ tag, call ≠ .ping tag)
   | ping tag' => exact absurd rfl (h tag')
   | _ => simp [apiWrite]
 
-theorem step_ping_conservation (c : C) (ev : Ev) (hc : c.connected = true) (he : isEarly ev = false)
-    (hp : pingOkStep c ev = true) :
-    pingFiredStep c ev ++ nz (slotTags (step c ev).1) =
-      nz (slotTags c) ++ nz (pingRequested [ev]) := by
+theorem connect_pings (c : C) (a : Answer) : (connect c a).1.pings = c.pings := by
+  cases a with
+  | connack sp code => simp only [connect]; split <;> rfl
+  | _ => rfl
+
+/-- one event: the completions fired by a PINGRESP followed by the pings still in flight are the
+pings that were in flight followed by the ping the event requests - for *every* number of
+outstanding pings -/
+theorem step_ping_conservation (c : C) (ev : Ev) (hc : c.connected = true) (he : isEarly ev = false) :
+    pingFiredStep c ev ++ nz (pingTags (step c ev).1) =
+      nz (pingTags c) ++ nz (pingRequested [ev]) := by
   cases ev with
   | connect a =>
-    have : (step c (.connect a)).1.ping = c.ping := by
-      cases a with
-      | connack sp code => simp only [step, connect]; split <;> rfl
-      | _ => rfl
-    simp [pingFiredStep, pingRequested, slotTags, this, nz]
+    have : (step c (.connect a)).1.pings = c.pings := connect_pings c a
+    simp [pingFiredStep, pingRequested, pingTags, this, nz]
   | api call =>
     by_cases hpg : ∃ tag, call = .ping tag
     · obtain ⟨tag, rfl⟩ := hpg
-      simp only [pingOkStep, Option.isNone_iff_eq_none] at hp
-      simp [step, hc, apiWrite, apiRegister, pingFiredStep, pingRequested, slotTags, hp, nz]
+      simp [step, hc, apiWrite, apiRegister, pingFiredStep, pingRequested, pingTags, nz]
     · have hpg' : ∀ tag, call ≠ .ping tag := fun tag h => hpg ⟨tag, h⟩
-      have : (step c (.api call)).1.ping = c.ping := by
-        rw [step_api c hc, apiRegister_ping _ _ (apiWrite_snd_ping c call hpg'), apiWrite_ping]
+      have : (step c (.api call)).1.pings = c.pings := by
+        rw [step_api c hc, apiRegister_pings _ _ (apiWrite_snd_ping c call hpg'), apiWrite_pings]
       have hr : pingRequested [Ev.api call] = [] := by
         cases call with
         | ping tag => exact absurd rfl (hpg' tag)
         | _ => rfl
-      simp [pingFiredStep, hr, slotTags, this, nz]
+      simp [pingFiredStep, hr, pingTags, this, nz]
   | peer p =>
     by_cases hpr : p = .pingresp
     · subst hpr
       simp only [pingFiredStep, pingRequested, List.append_nil]
-      rw [step_peer c hc]
-      simp only [peer, slotTags]
-      cases hpg : c.ping with
-      | none => simp [hpg, doneTags, nz]
-      | some x => simp [hpg, doneTags_completeOut, nz]
-    · have : (step c (.peer p)).1.ping = c.ping := by rw [step_peer c hc, peer_ping c p hpr]
+      rw [step_peer c hc, peer_pingresp]
+      simp only [pingTags, flatMap_completeOut_doneTags_pairs]
+      rw [← nz_append, ← List.map_append, pingAcked_conservation, pingAck_tags]
+      simp [nz]
+    · have : (step c (.peer p)).1.pings = c.pings := by rw [step_peer c hc, peer_pings c p hpr]
       have hf : pingFiredStep c (.peer p) = [] := by
         cases p with
         | pingresp => exact absurd rfl hpr
         | _ => rfl
-      simp [hf, pingRequested, slotTags, this, nz]
+      simp [hf, pingRequested, pingTags, this, nz]
   | apiEarlyAck call ack => simp [isEarly] at he
 
 theorem pingRequested_cons (ev : Ev) (evs : List Ev) :
@@ -1029,19 +1033,102 @@ theorem pingRequested_cons (ev : Ev) (evs : List Ev) :
   | api call => cases call <;> rfl
   | _ => rfl
 
-theorem run_ping_conservation (c : C) (evs : List Ev) (hc : c.connected = true) (he : noEarly evs = true)
-    (hp : PingOk c evs = true) :
-    pingFired c evs ++ nz (slotTags (runState c evs)) = nz (slotTags c) ++ nz (pingRequested evs) := by
+theorem run_ping_conservation (c : C) (evs : List Ev) (hc : c.connected = true) (he : noEarly evs = true) :
+    pingFired c evs ++ nz (pingTags (runState c evs)) = nz (pingTags c) ++ nz (pingRequested evs) := by
   induction evs generalizing c with
   | nil => simp [pingFired, pingRequested, runState, nz]
   | cons ev evs ih =>
     simp only [noEarly, List.all_cons, Bool.and_eq_true, Bool.not_eq_true'] at he
-    simp only [PingOk, Bool.and_eq_true] at hp
-    have h1 := step_ping_conservation c ev hc he.1 hp.1
-    have h2 := ih (step c ev).1 (step_connected c ev hc) (by simpa [noEarly] using he.2) hp.2
+    have h1 := step_ping_conservation c ev hc he.1
+    have h2 := ih (step c ev).1 (step_connected c ev hc) (by simpa [noEarly] using he.2)
     rw [runState_cons, pingRequested_cons]
     simp only [pingFired, nz_append, List.append_assoc]
     rw [h2, ← List.append_assoc, h1, List.append_assoc]
+
+/-- no ping in flight carries a PINGRESP: `processIncoming` collects (`Acked`) right after it
+acknowledges (`Ack`), so between two events every queued ping is still waiting -/
+def PingsWaiting (c : C) : Prop := ∀ e ∈ c.pings, e.1 ≠ tPINGRESP
+
+theorem pingsWaiting_init : PingsWaiting init := by intro e he; cases he
+
+/-- with every queued ping waiting, a PINGRESP takes the oldest one out and hands back exactly it -/
+theorem pingAcked_pingAck_waiting (l : List (Nat × Nat)) (h : ∀ e ∈ l, e.1 ≠ tPINGRESP) :
+    pingAcked (pingAck l) = (l.tail, (l.head?.map (fun e => (tPINGRESP, e.2))).toList) := by
+  cases l with
+  | nil => rfl
+  | cons e l =>
+    have he : (e.1 != tPINGRESP) = true := by simpa using h e (by simp)
+    have hd : l.dropWhile (fun e => e.1 == tPINGRESP) = l := by
+      cases l with
+      | nil => rfl
+      | cons a l =>
+        have : (a.1 == tPINGRESP) = false := by simpa using h a (by simp)
+        simp [List.dropWhile_cons, this]
+    have ht : l.takeWhile (fun e => e.1 == tPINGRESP) = [] := by
+      cases l with
+      | nil => rfl
+      | cons a l =>
+        have : (a.1 == tPINGRESP) = false := by simpa using h a (by simp)
+        simp [List.takeWhile_cons, this]
+    simp only [pingAck, he, ↓reduceIte, pingAcked, List.dropWhile_cons, List.takeWhile_cons, BEq.rfl, hd, ht,
+      List.tail_cons, List.head?_cons, Option.map_some, Option.toList_some]
+
+theorem peer_pingsWaiting (c : C) (p : Packet) (h : PingsWaiting c) : PingsWaiting (peer c p).1 := by
+  by_cases hp : p = .pingresp
+  · subst hp
+    rw [peer_pingresp, pingAcked_pingAck_waiting c.pings h]
+    intro e he
+    exact h e (List.mem_of_mem_tail he)
+  · unfold PingsWaiting; rw [peer_pings c p hp]; exact h
+
+theorem apiRegister_pingsWaiting (c : C) (call : Api) (h : PingsWaiting c) : PingsWaiting (apiRegister c call).1 := by
+  by_cases hpg : ∃ tag, call = .ping tag
+  · obtain ⟨tag, rfl⟩ := hpg
+    intro e he
+    simp only [apiRegister, List.mem_append, List.mem_singleton] at he
+    rcases he with he | rfl
+    · exact h e he
+    · simp [tPINGRESP]
+  · unfold PingsWaiting; rw [apiRegister_pings c call (fun tag h => hpg ⟨tag, h⟩)]; exact h
+
+theorem apiWrite_pingsWaiting (c : C) (call : Api) (h : PingsWaiting c) : PingsWaiting (apiWrite c call).1 := by
+  unfold PingsWaiting; rw [apiWrite_pings]; exact h
+
+/-- the invariant is inductive over every event (early acknowledgements included) -/
+theorem pingsWaiting_step (c : C) (ev : Ev) (h : PingsWaiting c) : PingsWaiting (step c ev).1 := by
+  cases ev with
+  | connect a => unfold PingsWaiting; rw [show (step c (.connect a)).1 = (connect c a).1 from rfl, connect_pings]; exact h
+  | api call =>
+    simp only [step]
+    split
+    · exact h
+    · exact apiRegister_pingsWaiting _ _ (apiWrite_pingsWaiting c call h)
+  | peer p =>
+    simp only [step]
+    split
+    · exact h
+    · exact peer_pingsWaiting c p h
+  | apiEarlyAck call ack =>
+    simp only [step]
+    split
+    · exact h
+    · exact apiRegister_pingsWaiting _ _ (peer_pingsWaiting _ ack (apiWrite_pingsWaiting c call h))
+
+theorem pingsWaiting_run (c : C) (evs : List Ev) (h : PingsWaiting c) : PingsWaiting (runState c evs) := by
+  induction evs generalizing c with
+  | nil => exact h
+  | cons ev evs ih => exact ih _ (pingsWaiting_step c ev h)
+
+/-- when a ping completion fires: a PINGRESP completes the oldest ping in flight, nothing else; the
+younger pings stay in flight, in order -/
+theorem pingresp_completes_oldest (c : C) (hc : c.connected = true) (h : PingsWaiting c) :
+    doneTags (step c (.peer .pingresp)).2 = nz ((pingTags c).take 1) ∧
+    pingTags (step c (.peer .pingresp)).1 = (pingTags c).tail := by
+  rw [step_peer c hc, peer_pingresp, pingAcked_pingAck_waiting c.pings h]
+  simp only [flatMap_completeOut_doneTags_pairs, pingTags]
+  cases c.pings with
+  | nil => exact ⟨rfl, rfl⟩
+  | cons e l => exact ⟨rfl, rfl⟩
 
 /-! ### when exactly a completion fires -/
 
